@@ -82,18 +82,20 @@ theorem local_rejects_unsupported (kw : RD) (cmd : List Tok) (h : kw.gpus.isSome
 theorem block_rejects : submitBlock false = .error "ValueError" ∧ submitBlock true = .ok () := by
   constructor <;> rfl
 
-/-- slots used by the accounting are those of the effective cores (times the per-call threads) -/
-theorem slots_eq (ex pc : RD) : slots ex pc = ((effective ex pc).cores.getD 1) * pc.threads.getD 1 := by
+/-- slots used by the accounting are those of the effective cores times the effective threads (the
+    per-call `threads_per_core`, else the executor-level one: fix 8703212) -/
+theorem slots_eq (ex pc : RD) : slots ex pc = ((effective ex pc).cores.getD 1) * ((effective ex pc).threads).getD 1 := by
   simp [slots, effective]
 
 /-- **The two models of the slot computation agree**: `Res.slots` (this file: what the dispatcher
     accounts for a call, C10) is `Sys.slotsOf` (the transition system of C07 / C19) for the same
     executor-level cores and per-call request — the resource ceiling is proved about the slots the
     merge rule produces. -/
-theorem slots_agree_with_sys (ex pc : RD) (c : Sys.Cfg) (h : c.execCores = execCores ex) :
+theorem slots_agree_with_sys (ex pc : RD) (c : Sys.Cfg) (h : c.execCores = execCores ex)
+    (ht : c.execThreads = ex.threads.getD 1) :
     slots ex pc = Sys.slotsOf c { cores := pc.cores, threads := pc.threads } := by
-  simp only [slots, mergeCores, Sys.slotsOf, h]
-  cases pc.cores <;> simp
+  simp only [slots, mergeCores, Sys.slotsOf, h, ht]
+  cases pc.cores <;> cases pc.threads <;> simp
 
 /-! Non-vacuity: three calls with different requests on one executor-level dictionary. -/
 example :
